@@ -375,7 +375,9 @@ def forgeries():
 def wrong_token_cr(key, token, genuine):
     """challenge responses of a (malicious) client that holds the session key but answers with another token"""
     out = []
-    for label, tok in (("token+1", token + 1), ("token 0", 0), ("token of nobody", 0x7FFFFFFF), ("negative token", -token)):
+    for label, tok in (("token+1", token + 1), ("token 0", 0), ("token of nobody", 0x7FFFFFFF), ("negative token", -token),
+                       ("token + 2**32 (same low 32 bits)", token + 2 ** 32), ("token - 2**32", token - 2 ** 32), ("token + 2**62", token + 2 ** 62),
+                       ("token as float", float(token)), ("token as string", str(token)), ("token in a list", [token]), ("True", True)):
         m = HandshakeClientChallengeResponseMessage()
         m.token = tok
         body = genuine[20:22] + m.dumpb()
@@ -420,7 +422,7 @@ def forgery_work(arg):
             viols.setdefault((oracle, sig), [0, {"part": "forgery", "label": label}, "%s | %s" % (label, msg)])[0] += 1
     if k == 0:
         # forged challenge responses: need the token of the running session
-        for vi in range(8):
+        for vi in range(15):
             total += 1
             mon = HandshakeMonitor()
             w = World(root_index=ROOT, key_offset=KOFF, monitors=[mon])
